@@ -411,14 +411,8 @@ impl TargetScheme for Action {
 
 impl TargetScheme for PositionalOption {
     fn compile(&self, buffer: &mut String, _: &mut dyn SchemeManager) -> CResult {
-        match self {
-            #[cfg(debug_assertions)]
-            _ => buffer.push_str("(UNIMPLEMENTED)"),
-            #[cfg(not(debug_assertions))]
-            _ => todo!(),
-        }
-
-        Ok(())
+        // No positional option can be expressed in LiPE
+        Err(CompileError::UnsupportedOption(format!("{self:?}")))
     }
 }
 
